@@ -284,7 +284,7 @@ func vfRunReader(rep *verifkit.Report, body *vfBody, cut int, planName string, p
 	var gotBytes []byte
 	var gotLog []verifkit.ReadResult
 	pn := verifkit.Catch(func() {
-		rd := newReader(body.headers(), inner, body.IsRequest, bld, func() {})
+		rd := vfNewReader(body.headers(), inner, body.IsRequest, bld, func() {})
 		buf := make([]byte, bufSize)
 		for i := 0; i < 100000; i++ {
 			n, err := rd.Read(buf)
@@ -690,7 +690,7 @@ func TestVerifC14CloseRace(t *testing.T) {
 		bld := vfNewBuilder(coll, false)
 		var done atomic.Int32
 		hdr := http.Header{"Content-Type": {"application/connect+proto"}}
-		rd := newReader(hdr, inner, isRequest, bld, func() { done.Add(1) })
+		rd := vfNewReader(hdr, inner, isRequest, bld, func() { done.Add(1) })
 		var wg sync.WaitGroup
 		wg.Add(2)
 		go func() {
@@ -802,7 +802,7 @@ func TestVerifC14AfterEndStream(t *testing.T) {
 					var got []byte
 					w := map[string]any{"protocol": proto, "end_stream_compressed": compressed, "bytes_after_end_stream": tname, "chunking": chunking}
 					pn := verifkit.Catch(func() {
-						rd := newReader(h, inner, false, bld, func() {})
+						rd := vfNewReader(h, inner, false, bld, func() {})
 						got, _ = io.ReadAll(rd)
 						bld.build()
 					})
